@@ -98,6 +98,7 @@ def _tag_mutations(ctx, f):
       if isinstance(t, ast.Subscript) and isinstance(
           t.value, ast.Attribute) and t.value.attr == '__argument_tags__':
         out.append((n, st, unparse(t.value.value), unparse(t.slice), 'store'))
+  _tag_mutations.alias = alias  # of the function analysed last
   return g, out
 
 
@@ -125,6 +126,10 @@ def run(ctx: Ctx, rs: RuleSet, tier: str):
                 x.func, ast.Attribute) and (
                     x.func.attr == 'add_updated_tags') and len(x.args) == 2:
               a0, a1 = unparse(x.args[0]), unparse(x.args[1])
+              if isinstance(x.args[1], ast.Name) and (
+                  x.args[1].id in _tag_mutations.alias):
+                # a local holding the tag set itself (same object)
+                a1 = unparse(_tag_mutations.alias[x.args[1].id])
               if a0 == key and a1 == f'{root}.__argument_tags__[{key}]' and (
                   unparse(x.func.value) == f'{root}.__argument_history__'):
                 logs.add(m)
@@ -298,7 +303,6 @@ def run(ctx: Ctx, rs: RuleSet, tier: str):
   rs.declare(rule, 'equality and build code never read argument history', 6)
   readers = [
       'fiddle._src.config._compare_buildable',
-      'fiddle._src.config._compare_buildable.get_value_or_default',
       'fiddle._src.config.Buildable.__eq__',
       'fiddle._src.building.build',
       'fiddle._src.building.build._build',
@@ -310,8 +314,25 @@ def run(ctx: Ctx, rs: RuleSet, tier: str):
       'fiddle._src.partial._build_partial',
       'fiddle._src.config.ordered_arguments',
   ]
+  # the decision functions, their nested functions and the private helpers
+  # they call directly (a helper extracted from one of them is still part of
+  # the decision)
+  all_readers = []
   for q in readers:
     f = ctx.func(q)
+    group = [f] + list(f.nested.values())
+    for h in list(group):
+      for dst, kind in sorted(ctx.cg.edges.get(h.qualname, {}).items()):
+        d = ctx.p.funcs.get(dst)
+        if kind == 'exact' and d is not None and not d.is_lambda and (
+            d.cls is None) and d.name.startswith('_') and (
+                d.module is f.module) and d.parent is d.module:
+          group.append(d)
+    for h in group:
+      if h.qualname not in [x.qualname for x in all_readers]:
+        all_readers.append(h)
+  for f in all_readers:
+    q = f.qualname
     hits = [n for n in walk_function(f.node) if isinstance(n, ast.Attribute)
             and n.attr in ('__argument_history__', 'argument_history')]
     hits += [n for n in walk_function(f.node) if isinstance(n, ast.Call) and
